@@ -36,7 +36,7 @@ import (
 // healthy peers are real tls.Clients over net.Pipe.
 
 type TConn struct {
-	Kind string `json:"kind"`          // healthy | stall | junk | hangup
+	Kind string `json:"kind"`          // healthy | stall | junk | hangup | panic (a handshaken TLS connection whose second request makes the handler panic)
 	Cut  int    `json:"cut,omitempty"` // stall / hangup: bytes of a TLS record delivered before the silence / the EOF
 	N    int    `json:"n,omitempty"`   // healthy: requests
 }
@@ -119,6 +119,9 @@ func runTLSCase(c TLSCase) *ev.Failure {
 	cfg := &tls.Config{Certificates: []tls.Certificate{cert}}
 	mux := diam.NewServeMux()
 	mux.HandleFunc("ALL", func(conn diam.Conn, m *diam.Message) {
+		if _, marked := u32(m, codeMarker); marked {
+			panic("scripted handler panic on a TLS connection")
+		}
 		a := m.Answer(2001)
 		if ci, ok := u32(m, codeConn); ok {
 			a.AddAVP(diam.NewAVP(codeConn, 0x40, 0, datatype.Unsigned32(ci)))
@@ -186,6 +189,25 @@ func runTLSCase(c TLSCase) *ev.Failure {
 				if f := healthy(i, tc.N, fmt.Sprintf("healthy TLS connection %d (opened after %d others)", i, i)); f != nil {
 					return f
 				}
+			case "panic":
+				// a TLS connection like the healthy ones (no client certificate): one request answered,
+				// then one whose handler panics - that connection ends, nothing else does
+				cEnd, sEnd := net.Pipe()
+				pipes = append(pipes, cEnd, sEnd)
+				cEnd.SetDeadline(time.Now().Add(promptDeadline))
+				lis.Push(tls.Server(sEnd, cfg))
+				pc := tls.Client(cEnd, &tls.Config{InsecureSkipVerify: true})
+				if err := pc.Handshake(); err != nil {
+					return ev.Failf("tls-conn-not-served", "TLS connection %d: handshake did not complete within %v (%v)", i, promptDeadline, err)
+				}
+				go pc.Write(request(i, 1, false))
+				if _, _, err := readAnswer(pc); err != nil {
+					return ev.Failf("request-unanswered", "TLS connection %d: no answer to its first request (%v)", i, err)
+				}
+				go pc.Write(request(i, 2, true))
+				if _, _, err := readAnswer(pc); err == nil {
+					return ev.Failf("faulty-conn-not-closed", "TLS connection %d: the request whose handler panics was answered", i)
+				}
 			default:
 				mc := memnet.NewConn()
 				mc.Remote = memnet.Addr{Net: "tcp", Str: fmt.Sprintf("10.9.7.%d:40000", i+1)}
@@ -214,7 +236,7 @@ func runTLSCase(c TLSCase) *ev.Failure {
 		// peers that sent junk or hung up: their connection is closed
 		k := 0
 		for _, tc := range c.Conns {
-			if tc.Kind == "healthy" {
+			if tc.Kind == "healthy" || tc.Kind == "panic" {
 				continue
 			}
 			mc := scripted[k]
@@ -254,12 +276,12 @@ func runTLSCase(c TLSCase) *ev.Failure {
 
 var tlsProp = ev.Register(&ev.Prop[TLSCase]{
 	ID: "C15", Name: "tls-accept",
-	Rule: "Server.Serve on a listener that hands out *tls.Conn before the handshake (in-memory transports): 1..5 connections in sequence, each a healthy TLS client (1..3 requests, answered before the next opens), a peer that sends 0..211 bytes of a handshake record and falls silent, a peer that sends non-TLS bytes, or a peer that hangs up inside the record; every healthy connection and one opened after all others must complete its handshake and get its answers within 5 s, failed handshakes must leave their transport closed, Serve must not return; non-trivial = a stalled or failed handshake precedes a healthy connection",
+	Rule: "Server.Serve on a listener that hands out *tls.Conn before the handshake (in-memory transports): 1..5 connections in sequence, each a healthy TLS client (1..3 requests, answered before the next opens), a peer that sends 0..211 bytes of a handshake record and falls silent, a peer that sends non-TLS bytes, a peer that hangs up inside the record, or a handshaken TLS client (no client certificate) whose second request makes the handler panic; every healthy connection and one opened after all others must complete its handshake and get its answers within 5 s, failed handshakes must leave their transport closed, Serve must not return; non-trivial = a stalled or failed handshake precedes a healthy connection",
 	Gen: func(t *rapid.T) TLSCase {
 		var c TLSCase
 		n := rapid.IntRange(1, 5).Draw(t, "conns")
 		for i := 0; i < n; i++ {
-			tc := TConn{Kind: rapid.SampledFrom([]string{"healthy", "stall", "stall", "junk", "hangup"}).Draw(t, "kind")}
+			tc := TConn{Kind: rapid.SampledFrom([]string{"healthy", "stall", "stall", "junk", "hangup", "panic"}).Draw(t, "kind")}
 			switch tc.Kind {
 			case "healthy":
 				tc.N = rapid.IntRange(1, 3).Draw(t, "n")
